@@ -1,8 +1,8 @@
 package checks
 
 import (
-	"os"
 	"fmt"
+	"os"
 	"strings"
 	"sync/atomic"
 	"testing"
@@ -32,7 +32,7 @@ var causeReasons = map[string][]string{
 type c03Case struct {
 	Transport string   `json:"transport"`
 	Rev       int      `json:"rev"`
-	Causes    []string `json:"causes"`  // fired at the same virtual instant
+	Causes    []string `json:"causes"` // fired at the same virtual instant
 	Order     []int    `json:"release_order"`
 	Window    string   `json:"window"` // onclose | close | handshake | none
 	Buffered  bool     `json:"buffered_packet_at_close"`
@@ -588,7 +588,9 @@ func TestC03(t *testing.T) {
 	if r.Lane == 1%r.Lanes {
 		quicClose(r, 3, r.N(8, 320), false)
 	}
-	defer func() { r.Obs("events_concurrent_with_close_same_instant_other_goroutine", c03ConcurrentWithClose.Load()) }()
+	defer func() {
+		r.Obs("events_concurrent_with_close_same_instant_other_goroutine", c03ConcurrentWithClose.Load())
+	}()
 	if r.Lane == 2%r.Lanes {
 		for k := 0; k < r.N(4, 100); k++ {
 			for _, tr := range []string{"polling", "websocket", "webtransport"} {
